@@ -101,14 +101,14 @@ class Runner:
         self.copy_frame = canmatrix.copy.copy_frame
         self.loads_flat = canmatrix.formats.loads_flat
         self.memo_attr = "_frames_dict_id_extend"
+        self.class_containers = [v for v in vars(self.C.CanMatrix).values() if isinstance(v, (dict, list, set))]
 
     def fresh_process_state(self):
         """Every history starts from what a fresh interpreter would see: mutable containers that live on the class
         (not on instances) are emptied.  Without this a failure would depend on the histories run before it and its
         minimal history would not replay on its own."""
-        for k, v in list(vars(self.C.CanMatrix).items()):
-            if isinstance(v, (dict, list, set)):
-                v.clear()
+        for v in self.class_containers:
+            v.clear()
 
     # ---- one history ----
     def run(self, ops, uni, stop_at_failure=True):
@@ -382,8 +382,19 @@ class Runner:
 
 
 # ---- comparison with the model ----
+_HEX = {}
+
+
+def _hx(z):
+    h = _HEX.get(z)
+    if h is None:
+        h = _HEX[z] = core.hx(z)
+    return h
+
+
 def model_line(res):
-    return core.fmt_case(1001, res["mops"])
+    """core.fmt_case(1001, mops), with the hexadecimal spellings cached"""
+    return "3e9 " + " | ".join([" ".join([_hx(z) for z in g]) for g in res["mops"]])
 
 
 def compare_model(res, out_line):
@@ -829,8 +840,8 @@ def run(chk):
     ]
     if thorough:
         sweeps += [
-            dict(name="1 matrix, every operation, 2 ids x 2 formats x 2 names, 1 ECU name", nmat=1, uni="small", ids=IDS[:2], fmts=F2,
-                 names=[0, 1], ops=ALL1, necus=1, length=5),
+            dict(name="1 matrix, every operation but remove_frame/rename_frame/add_ecu, 2 ids x 2 formats x 2 names", nmat=1, uni="small",
+                 ids=IDS[:2], fmts=F2, names=[0, 1], ops=[k for k in ALL1 if k not in ("rem", "ren", "ecu")], length=5),
             dict(name="2 matrices, every operation + copy + merge, 2 ids x 2 formats x 1 name", nmat=2, uni="small", ids=IDS[:2], fmts=F2,
                  names=[0], ops=ALL1 + ["copy", "merge"], necus=1, length=4),
             dict(name="2 matrices, append/delete/set id/lookup/copy/merge, 1 id x 2 formats x 1 name", nmat=2, uni="small", ids=IDS[:1],
